@@ -5,9 +5,13 @@ import (
 	"context"
 	"fmt"
 	"io"
+	"sync/atomic"
+	"time"
 
 	"github.com/jdillenkofer/pithos/internal/storage"
+	"github.com/jdillenkofer/pithos/internal/storage/metadatapart"
 	"github.com/jdillenkofer/pithos/internal/verif/vkit"
+	"github.com/jdillenkofer/pithos/internal/verifhook"
 )
 
 // repeatedPartScenario (sequential, no GC pass in between): objects whose part
@@ -106,4 +110,92 @@ func repeatedPartScenario(ctx context.Context, r *vkit.Run, s storage.Storage, s
 		}
 	}
 	r.Count("repeated_part_scenarios", 1)
+}
+
+// gcGapScenario (deterministic schedule): a GC pass is stopped right after the
+// k-th transaction it finishes (k = 1..4: between its read transactions, after
+// the candidate scan, ...); while it is stopped a copy adds a reference to a
+// part; the pass resumes; then the other holder of the part is deleted and a
+// second pass runs. The copy must stay readable: whatever the pass had read
+// before the gap, it may not write back a count that forgets the new reference.
+func gcGapScenario(ctx context.Context, r *vkit.Run, s storage.Storage, stack string) {
+	bn := storage.MustNewBucketName("c08-gcgap")
+	if err := s.CreateBucket(ctx, bn); err != nil {
+		r.Inconclusive("gc-gap scenario: " + err.Error())
+		return
+	}
+	k := func(n string) storage.ObjectKey { return storage.MustNewObjectKey(n) }
+	for gap := int64(1); gap <= 4; gap++ {
+		body := bytes.Repeat([]byte(fmt.Sprintf("gap-%d-", gap)), 200)
+		x, y := fmt.Sprintf("x%d", gap), fmt.Sprintf("y%d", gap)
+		if _, err := s.PutObject(ctx, bn, k(x), nil, bytes.NewReader(body), nil, nil); err != nil {
+			r.Inconclusive("gc-gap scenario: " + err.Error())
+			return
+		}
+		time.Sleep(3 * time.Millisecond) // > grace window (1 ms)
+		sc := verifhook.NewScope()
+		gctx := verifhook.WithScope(context.Background(), sc)
+		reached, release := make(chan struct{}), make(chan struct{})
+		var n atomic.Int64
+		stop := func(string, int64) error {
+			if n.Add(1) == gap {
+				close(reached)
+				select {
+				case <-release:
+				case <-time.After(20 * time.Second):
+				}
+			}
+			return nil
+		}
+		verifhook.SetScoped(sc, "tx.commit.done", stop)
+		verifhook.SetScoped(sc, "tx.rollback.enter", stop)
+		done := make(chan error, 1)
+		go func() { done <- metadatapart.RunGCOnce(gctx, s) }()
+		stopped := false
+		select {
+		case <-reached:
+			stopped = true
+		case err := <-done:
+			done <- err // the pass has fewer than `gap` transactions
+		case <-time.After(20 * time.Second):
+		}
+		_, cerr := s.CopyObject(ctx, bn, k(x), bn, k(y), nil)
+		if stopped {
+			close(release)
+			r.Count("gc_passes_stopped_in_a_gap", 1)
+		}
+		select {
+		case <-done:
+		case <-time.After(30 * time.Second):
+			r.Inconclusive("gc-gap scenario: the GC pass did not finish")
+			return
+		}
+		verifhook.Clear()
+		if cerr != nil {
+			r.Count("gc_gap_copy_errors", 1)
+			continue
+		}
+		_, _ = s.DeleteObject(ctx, bn, k(x), nil)
+		time.Sleep(3 * time.Millisecond)
+		_ = metadatapart.RunGCOnce(ctx, s)
+		_, rds, err := s.GetObject(ctx, bn, k(y), nil, nil)
+		var got []byte
+		if err == nil {
+			var buf bytes.Buffer
+			for _, rd := range rds {
+				if _, e := io.Copy(&buf, rd); e != nil && err == nil {
+					err = e
+				}
+				rd.Close()
+			}
+			got = buf.Bytes()
+		}
+		r.Eval(fmt.Sprintf("gc-gap|%s|%d|stopped=%v", stack, gap, stopped))
+		if err != nil || !bytes.Equal(got, body) {
+			r.Violation("copy-lost-after-gc-gap:"+stack, fmt.Sprintf("a copy committed while a GC pass was stopped after its transaction #%d reads back %d of %d bytes (err=%v) after the source was deleted and another pass ran", gap, len(got), len(body), err),
+				map[string]any{"stack": stack, "gap_after_transaction": gap})
+			return
+		}
+	}
+	r.Count("gc_gap_scenarios", 1)
 }
